@@ -256,7 +256,7 @@ PROPS = {
     ),
     "C03": dict(
         engines=[("range", 2500, 20000), ("rangec", 600, 8000)],
-        theorems=["C03_holds", "C03_restore", "C03_D7_prefix_refuted", "C03_key_roundtrip", "C03_macString_injective", "C03_parse_macString", "C03_hkey_total", "C03_holds_concrete", "C03_restore_concrete"],
+        theorems=["C03_holds", "C03_restore", "C03_promise_is_kept_lease", "C03_D7_prefix_refuted", "C03_key_roundtrip", "C03_macString_injective", "C03_parse_macString", "C03_hkey_total", "C03_holds_concrete", "C03_restore_concrete"],
         modules=["CoreDhcp.Props.C03", "CoreDhcp.Props.C03Key"],
         trusted_base=[TB_BITSET, TB_SQLITE, TB_CLOCK],
         assumptions=["a crash point is a point between two requests (the database file is copied there and the plugin started on the copy)",
